@@ -14,6 +14,7 @@ package c11
 import (
 	"context"
 	"encoding/json"
+	"errors"
 	"fmt"
 	"io"
 	"net/http"
@@ -49,7 +50,10 @@ type Script struct {
 	Auth       string `json:"auth"`                 // none | required (RequireBearerToken) | optional (bearer checked only when a header is sent)
 	CounterIDs bool   `json:"counter_ids,omitempty"`
 	JSON       bool   `json:"json,omitempty"` // StreamableHTTPOptions.JSONResponse
-	Steps      []Step `json:"steps"`
+	// Store: "" (no event store) | memory (MemoryEventStore) | failclose (a MemoryEventStore whose
+	// SessionClosed reports an error after doing its work, as a remote store that has become unreachable would)
+	Store string `json:"store,omitempty"`
+	Steps []Step `json:"steps"`
 }
 
 type Step struct {
@@ -68,6 +72,14 @@ type Step struct {
 }
 
 type userT struct{ name, token, uid string }
+
+// failCloseStore is an event store whose SessionClosed fails (after releasing the session's data).
+type failCloseStore struct{ *mcp.MemoryEventStore }
+
+func (s failCloseStore) SessionClosed(ctx context.Context, id string) error {
+	s.MemoryEventStore.SessionClosed(ctx, id)
+	return errors.New("event store unreachable")
+}
 
 // users[0] sends no Authorization header; "empty" is a valid token whose TokenInfo has no
 // UserID; alice2 is a second token of user alice (sessions are bound to users, not tokens).
@@ -90,6 +102,9 @@ func gen(rt *rapid.T) Script {
 	}
 	s.CounterIDs = rapid.IntRange(0, 4).Draw(rt, "counter") == 0
 	s.JSON = rapid.IntRange(0, 3).Draw(rt, "json") == 0
+	if !s.Stateless {
+		s.Store = rapid.SampledFrom([]string{"", "", "memory", "failclose"}).Draw(rt, "store")
+	}
 	n := rapid.IntRange(3, 28).Draw(rt, "n")
 	kinds := []string{"init", "init", "init", "initbad", "other", "post", "post", "post", "post", "post", "post", "long", "long", "get", "get", "del", "del", "release", "release", "close", "adv", "adv", "adv", "adv", "advrace", "race"}
 	if s.Stateless {
@@ -1338,8 +1353,15 @@ func runInBubble(s Script) (res vt.Result) {
 			return next(ctx, method, req)
 		}
 	})
+	var store mcp.EventStore
+	switch s.Store {
+	case "memory":
+		store = mcp.NewMemoryEventStore(nil)
+	case "failclose":
+		store = failCloseStore{mcp.NewMemoryEventStore(nil)}
+	}
 	base := mcp.NewStreamableHTTPHandler(func(*http.Request) *mcp.Server { return server }, &mcp.StreamableHTTPOptions{
-		Stateless: s.Stateless, SessionTimeout: w.timeout, JSONResponse: s.JSON,
+		Stateless: s.Stateless, SessionTimeout: w.timeout, JSONResponse: s.JSON, EventStore: store,
 	})
 	verifier := func(ctx context.Context, token string, _ *http.Request) (*auth.TokenInfo, error) {
 		for _, u := range users[1:] {
